@@ -1,4 +1,5 @@
 """Generic decision procedure shared by all property checks (DESIGN.md section 3)."""
+import re
 import json, os, sys, time, traceback
 from . import core
 from .core import TieBroken, log
@@ -156,6 +157,34 @@ def sample_cases(ops, impl, k=4):
     return out
 
 
+def impl_panic(e, sname, trace, seed, testname):
+    """The harness process died of a Go panic raised inside the implementation (first non-runtime frame of the panicking
+    goroutine is not harness code): that is a concrete failing history — the trace written so far (flushed per line) plus
+    the operation the harness was executing; it replays with the same seed."""
+    if not e.what.startswith("harness-run:"):
+        return None
+    out = e.output or ""
+    i = out.find("panic: ")
+    if i < 0:
+        i = out.find("fatal error: ")
+    if i < 0:
+        return None
+    msg = out[i:].split("\n", 1)[0][:300]
+    frames = re.findall(r"^\t(\S+\.go):(\d+)", out[i:], re.M)
+    first = next((f for f in frames if "/runtime/" not in f[0] and "/testing/" not in f[0]), None)
+    if not first or "zz_verif" in first[0] or "zzverif" in first[0]:
+        return None
+    last = []
+    try:
+        with open(trace, errors="replace") as fh:
+            last = fh.read().splitlines()[-6:]
+    except OSError:
+        pass
+    return {"stream": sname, "signature": "implementation-panic",
+            "what": "the implementation panicked (%s at %s:%s) while executing the operation after the last line of the trace" % (msg, first[0].split("/repo/")[-1], first[1]),
+            "input": {"seed": seed, "harness_test": testname, "last_completed_ops": last}}
+
+
 def run_check(chk, tier, seed, replay=None):
     t0 = time.time()
     pid = chk.pid
@@ -211,6 +240,9 @@ def run_check(chk, tier, seed, replay=None):
             d = core.diff_stream(st.driver, trace, st.norm_impl, st.norm_model)
         except TieBroken as e:
             broken.append({"kind": "correspondence", "stream": sname, "name": e.what, "detail": e.output[-3000:]})
+            pc = impl_panic(e, sname, os.path.join(core.WORK, "trace-%s-%s.tsv" % (pid, sname)), seed, st.testname)
+            if pc:
+                concrete.append(pc)
             continue
         evaluations += d["evaluations"]
         nt = 0
